@@ -442,17 +442,24 @@ def descend_block(body, anchor, what):
             break
         hits.append(j)
         start = j + 1
+    starts = stmt_starts(body)
+    # a top-level statement of the block that STARTS with the text is preferred over occurrences nested deeper
+    at_stmt = [j for j in hits if idx[j] in starts]
+    if len(at_stmt) == 1:
+        hits = at_stmt
     if len(hits) != 1:
-        raise LostAnchor('fnrange in: anchor `%s` of %s: %d occurrences in the enclosing block' % (anchor, what, len(hits)))
+        raise LostAnchor('fnrange in: anchor `%s` of %s: %d occurrences in the enclosing block (%d at a statement start)' % (anchor, what, len(hits), len(at_stmt)))
     ob = idx[hits[0] + len(want) - 1]
     cb = match_close(body, ob, mask)
-    starts = stmt_starts(body)
     owner = max([p for p in starts if p <= idx[hits[0]]], default=None)
     if owner is None:
         raise LostAnchor('fnrange in: anchor `%s` of %s is not inside a statement' % (anchor, what))
+    later = [p for p in starts if p > cb]
     rec = dict(anchor=anchor, enclosing_statement=norm_ws(body[owner:ob + 1])[:200],
                statements_before=sum(1 for p in starts if p < owner),
-               statements_after=sum(1 for p in starts if p > cb))
+               statements_after=len(later),
+               # what follows the block inside its own statement (e.g. `)` `.expect(..);` of a call it is an argument of)
+               stmt_tail=norm_ws(body[cb:later[0] if later else len(body)])[:300])
     return body[ob + 1:cb], rec
 
 
@@ -874,8 +881,12 @@ def build_function(repo, d, unit, em, report, vac=False, stub_of=None):
             descents.append(rec)
         # /*@fnrange: the verified text is a contiguous range of the top-level statements of the real function,
         # wrapped in a free function with the signature given by `as:` and the tail expression given by `returns:`
+        if d['in']:
+            # after a descent the range defaults to the whole innermost block
+            d['from'] = d['from'] or START_OF_BLOCK
+            d['to'] = d['to'] or END_OF_BLOCK
         if not (d['from'] and d['to'] and d['as'] and d['returns']):
-            raise SystemExit('template error: @fnrange %s needs from: / to: / as: / returns:' % d['name'])
+            raise SystemExit('template error: @fnrange %s needs from: / to: (or in:) / as: / returns:' % d['name'])
         cut, nb, ni, na = cut_range(body, d['from'], d['to'], '%s::%s' % (d['file'], d['name']))
         body = '\n        ' + cut.rstrip() + '\n        ' + d['returns'].strip() + '\n    '
         head, params, ret, where = split_sig(norm_ws(d['as']))
@@ -890,10 +901,11 @@ def build_function(repo, d, unit, em, report, vac=False, stub_of=None):
         rng['from'], rng['to'] = d['from'], d['to']
         if descents:
             rng['descents'] = descents
+            rng['in'] = descents          # the name rules (W_FLOW) read
     else:
         head, params, ret, where = split_sig(fx['sig'])
     fired = {}
-    ctx = dict(head=head, params=params, ret=ret, where=where, returns=(d['returns'] or '').strip() if d['range'] else None)
+    ctx = dict(head=head, params=params, ret=ret, where=where, returns=(d['returns'] or '').strip() if d['range'] else None, range=rng)
     # always-on drops
     body = R.drop_logging(body, fired)
     # normalisations: rewrite an EQUIVALENT SPELLING of an idiom into the spelling the rules / contracts below
@@ -1169,11 +1181,55 @@ def build_stub(repo, text, vxdir, unit, em, report):
     build_function(repo, d, unit, em, report, stub_of=mu.group(1))
 
 
+def use_contract(path, name, opts):
+    """`//@usecontract FILE :: NAME [guarded] [only=l1,l2]`: the requires / ensures text of the directive of template
+    FILE that emits function NAME (its `rename:` / the `as:` name of a range / its own name), clause by clause."""
+    text = open(path).read()
+    hits = []
+    for dm in re.finditer(r'/\*@(fnrange|fn)\s+(.*?)@\*/', text, re.S):
+        d = parse_fn_directive(dm.group(2))
+        emitted = d['rename'] or d['name']
+        if dm.group(1) == 'fnrange' and d['as']:
+            m = re.match(r'\s*fn\s+([A-Za-z0-9_]+)', d['as'])
+            emitted = m.group(1) if m else emitted
+        if emitted == name:
+            hits.append(d)
+    if len(hits) != 1:
+        raise SystemExit('template error: usecontract %s :: %s: %d directives emit that function' % (path, name, len(hits)))
+    d = hits[0]
+    guarded, only = False, None
+    for o in opts:
+        if o == 'guarded':
+            guarded = True
+        elif o.startswith('only='):
+            only = [x for x in o[len('only='):].split(',') if x]
+        else:
+            raise SystemExit('template error: usecontract option ' + o)
+    ens = d['ensures']
+    if only is not None:
+        missing = [l for l in only if l not in [lab for lab, _ in ens]]
+        if missing:
+            raise SystemExit('template error: usecontract %s :: %s: no ensures clause labelled %s' % (path, name, ', '.join(missing)))
+        ens = [(lab, e) for lab, e in ens if lab in only]
+    out = []
+    if d['requires'] and not guarded:
+        out.append('    requires')
+        out += ['        %s,   // [%s]' % (e, lab) if '\n' not in e else '        %s,' % e for lab, e in d['requires']]
+    if ens:
+        out.append('    ensures')
+        pre = ' && '.join('(%s)' % e for _, e in d['requires']) if guarded and d['requires'] else ''
+        for lab, e in ens:
+            e2 = '%s ==> (%s)' % (pre, e) if pre else e
+            out.append('        %s,   // [%s]' % (e2, lab) if '\n' not in e2 else '        %s,' % e2)
+    return '\n'.join(out)
+
+
 def build_unit(template_path, repo, vac=False):
     tpl = open(template_path).read()
     vxdir = os.path.dirname(os.path.abspath(__file__))
     tpl = re.sub(r'(?m)^//@include\s+(\S+)\s*$', lambda m: open(os.path.join(vxdir, m.group(1))).read(), tpl)
     tpl = re.sub(r'(?m)^[ \t]*//@usespec\s+(\S+)\s+::\s+(.*?)\s*$', lambda m: use_spec(os.path.join(vxdir, m.group(1)), m.group(2).split()), tpl)
+    tpl = re.sub(r'(?m)^[ \t]*//@usecontract\s+(\S+)\s+::\s+(\S+)(.*?)\s*$', lambda m: use_contract(os.path.join(vxdir, m.group(1)), m.group(2), m.group(3).split()), tpl)
     tpl = re.sub(r'(?m)^[ \t]*//@uselemma\s+(\S+)\s+::\s+(.*?)\s*$', lambda m: use_lemma(os.path.join(vxdir, m.group(1)), m.group(2).split()), tpl)
     em = Emitter()
     report = dict(unit=None, props=[], functions=[], items=[], lemmas=[], template=os.path.basename(template_path))
